@@ -188,6 +188,19 @@ def run(P, rep, tier):
         rep.ok(r5, 'MetaFormat.VALID_VALUES = {json}')
     else:
         rep.violation(r5, 'meta-formats', 'python/pydiffx/options.py', 'writer accepts metadata formats %s, reader only json' % sorted(mf))
+    for X in ('.preamble', '..preamble', '.meta', '..meta', '...meta'):
+        # text sections: what the writer encoded with the effective encoding the reader decodes with that very encoding
+        if res[X]['decode_enc'] == ['encoding'] and res[X]['decode_unit'] not in (['whole content'], []):
+            rep.violation(r5, 'reader-decode-unit:%s' % X, R.content_fn.loc(), 'reader %s: the content is decoded %s: a byte order mark applies '
+                          'to the first piece only, and a split that falls inside a character (UTF-16/32 text) cuts it in two, so text the '
+                          'writer encoded as a whole is rejected or altered' % (X, ' / '.join(res[X]['decode_unit'])), path=[R.content_fn.short])
+        elif res[X]['decode_enc'] == ['encoding']:
+            rep.ok(r5, 'reader %s: text decoded with the section\'s effective encoding' % X)
+        else:
+            rep.violation(r5, 'reader-decode:%s' % X, R.content_fn.loc(), 'reader %s: the content is not decoded with the section\'s effective '
+                          'encoding on every yielding path (decoded with: %s): text written in a codec the consumer of the raw bytes cannot '
+                          'guess (latin-1, cp125x, EBCDIC, shift_jis ...) is rejected or comes back different' % (X, res[X]['decode_enc'] or 'nothing'),
+                          path=[R.content_fn.short])
     for X in ('.meta', '..meta', '...meta'):
         if set(res[X]['format']) <= {"'json'", 'absent'} and any(c[1] == 'ValueError' for c in res[X]['caught']):
             rep.ok(r5, 'reader %s: json.loads, format json' % X)
